@@ -61,6 +61,16 @@ Fixpoint set_last {A} (g : A -> A) (l : list A) : list A :=
 Section Types.
   Variable F : Type.
 
+  (* the duck-typed `transform` hook of a target object (hasattr(tt, "transform")): applied to the
+     value the action produced before the target value is subtracted; the raw value is what is logged *)
+  Inductive ttrans :=
+  | TId                      (* no hook *)
+  | TAbs                     (* abs(v) *)
+  | TSquare                  (* v * v *)
+  | TScale (c : F)           (* v * c *)
+  | TFloor (a : F)           (* v if v > a else a *)
+  | TCeil (b : F).           (* v if v < b else b *)
+
   Record cfg := mkCfg {
     c_w : list F;                       (* Vary.weight *)
     c_lim : list (option (option F * option F));  (* Vary.limits (knob units): None, or a pair whose
@@ -71,7 +81,8 @@ Section Types.
     c_tval : list F; c_tol : list F; c_tw : list F; c_ttag : list N;
     c_nmax : nat; c_assert : bool; c_restore : bool;
     c_check : bool;                     (* Optimize(check_limits=...) *)
-    c_tlog : list bool }.               (* Target(optimize_log=...); missing entries = False *)
+    c_tlog : list bool;                 (* Target(optimize_log=...); missing entries = False *)
+    c_ttrans : list ttrans }.           (* transform hooks; missing entries = TId *)
 
   Record row := mkRow {
     r_knobs : list F; r_va : list bool; r_ta : list bool; r_pen : F;
@@ -121,7 +132,8 @@ Arguments bind {F A B}.
 Arguments mkRow {F}. Arguments mkCfg {F}. Arguments mkState {F}.
 Arguments c_w {F}. Arguments c_lim {F}. Arguments c_step {F}. Arguments c_maxstep {F}. Arguments c_vtag {F}.
 Arguments c_vname {F}. Arguments c_tval {F}. Arguments c_tol {F}. Arguments c_tw {F}. Arguments c_ttag {F}.
-Arguments c_nmax {F}. Arguments c_assert {F}. Arguments c_restore {F}. Arguments c_check {F}. Arguments c_tlog {F}.
+Arguments c_nmax {F}. Arguments c_assert {F}. Arguments c_restore {F}. Arguments c_check {F}. Arguments c_tlog {F}. Arguments c_ttrans {F}.
+Arguments TId {F}. Arguments TAbs {F}. Arguments TSquare {F}. Arguments TScale {F}. Arguments TFloor {F}. Arguments TCeil {F}.
 Arguments r_knobs {F}. Arguments r_va {F}. Arguments r_ta {F}. Arguments r_pen {F}. Arguments r_targets {F}.
 Arguments r_tolmet {F}. Arguments r_hit {F}. Arguments r_alpha {F}. Arguments r_tag {F}.
 Arguments knobs {F}. Arguments va {F}. Arguments ta {F}. Arguments sx {F}. Arguments mfl {F}. Arguments lpwt {F}.
@@ -186,7 +198,23 @@ Section Opt.
     | _, _, _, _ => (old, false)
     end.
 
-  Definition residual (r : list F) : list F := map2 sub r (c_tval cf).
+  Definition apply_tr (t : ttrans F) (v : F) : F :=
+    match t with
+    | TId => v
+    | TAbs => fabs v
+    | TSquare => mul v v
+    | TScale c => mul v c
+    | TFloor a => if ltb a v then v else a
+    | TCeil b => if ltb v b then v else b
+    end.
+  (* transformed_res_values: the hook applied where there is one *)
+  Fixpoint transformed (ts : list (ttrans F)) (r : list F) : list F :=
+    match r with
+    | [] => []
+    | v :: r' => apply_tr (hd TId ts) v :: transformed (tl ts) r'
+    end.
+  (* err_values = transformed_res_values - target_values *)
+  Definition residual (r : list F) : list F := map2 sub (transformed (c_ttrans cf) r) (c_tval cf).
   Definition within (r : list F) : list bool :=
     map2 (fun e t => ltb (fabs e) t) (residual r) (c_tol cf).
   Definition all_ok (w act : list bool) : bool :=
